@@ -69,10 +69,10 @@ func c10Anchored(p *Prog, r *Report) {
 		return strings.HasPrefix(rel, "transport") || rel == "internal/core" || strings.HasPrefix(rel, "protocol/")
 	})
 	r.Floor("C10.18/lists-cleared-where-swept", "list_resets.C10.18/lists-cleared-where-swept", 1)
-	additionsTestedAgainstClose(p, r, "C10.26/additions-tested-against-close", func(rel string) bool {
+	additionsTestedAgainstClose(p, r, "C10.27/additions-tested-against-close", func(rel string) bool {
 		return strings.HasPrefix(rel, "transport") || rel == "internal/core" || strings.HasPrefix(rel, "protocol/")
 	})
-	r.Floor("C10.26/additions-tested-against-close", "guarded_additions.C10.26/additions-tested-against-close", 1)
+	r.Floor("C10.27/additions-tested-against-close", "guarded_additions.C10.27/additions-tested-against-close", 5)
 	R := "C10.3/socket-close"
 	r.Describe(R, "core socket.Close marks the socket closed under the lock, closes every listener and dialer, the protocol and all pipes; NewDialer/NewListener register an endpoint only if the socket is not closed, tested in the same critical section")
 	sc := q.Fn(R, "internal/core", "socket", "Close")
